@@ -120,10 +120,16 @@ func GenPlan(t *rapid.T, profile string, k Knobs) *Plan {
 			in.Priority = rapid.SampledFrom([]int{0, 1, 1, 2, 2, 3, 100}).Draw(t, "prio")
 			in.Takeover = in.Priority > 0 && rapid.IntRange(0, 2).Draw(t, "takeover") > 0
 		}
+		if k.Conn && rapid.IntRange(0, 3).Draw(t, "monitored") > 0 {
+			// (a monitored instance gets no OnDemote duration: the library invokes OnDemote under its
+			// disconnect-handler mutex, and a mutex waiter would freeze virtual time - DESIGN.md 5.6)
+			in.Monitored = true
+			in.Grace = rapid.SampledFrom([]time.Duration{0, 2 * h, 2*h + 1, 5 * h}).Draw(t, "grace")
+		}
 		if k.Promote {
 			in.Promote = rapid.SampledFrom([]int{0, 1, 1, 2}).Draw(t, "promote")
 		}
-		if k.DemoteDur && rapid.IntRange(0, 3).Draw(t, "dd_on") == 0 {
+		if k.DemoteDur && !in.Monitored && rapid.IntRange(0, 3).Draw(t, "dd_on") == 0 {
 			in.DemoteDur = rapid.SampledFrom([]time.Duration{time.Millisecond, 50 * time.Millisecond, 2 * time.Second}).Draw(t, "demote_dur")
 		}
 		switch rapid.IntRange(0, 3).Draw(t, "vi") {
@@ -136,10 +142,6 @@ func GenPlan(t *rapid.T, profile string, k Knobs) *Plan {
 			in.HasHealth = true
 			in.MCF = rapid.SampledFrom([]int{0, 1, 2, 3, 5}).Draw(t, "mcf")
 			in.Health = GenHealthScript(t, in.MCF)
-		}
-		if k.Conn && rapid.IntRange(0, 3).Draw(t, "monitored") > 0 {
-			in.Monitored = true
-			in.Grace = rapid.SampledFrom([]time.Duration{0, 2 * h, 2*h + 1, 5 * h}).Draw(t, "grace")
 		}
 		if k.WatchDrops {
 			switch rapid.IntRange(0, 3).Draw(t, "drops") {
